@@ -38,6 +38,8 @@ type c01Op struct {
 	In       string           `json:"in,omitempty"`
 	Delta    map[string]int64 `json:"delta,omitempty"`
 	Variant  int              `json:"variant,omitempty"`
+	Weight   map[string]int64 `json:"weight,omitempty"`
+	NoObs    bool             `json:"-"`
 	Ops      []c01Op          `json:"ops,omitempty"`
 }
 
@@ -66,6 +68,10 @@ func c01Quota(o c01Op) *v1alpha1.ElasticQuota {
 		Spec:       v1alpha1.ElasticQuotaSpec{Max: c01RL(o.Max), Min: c01RL(o.Min)},
 	}
 	q.Labels[extension.LabelQuotaParent] = o.Parent
+	if o.Weight != nil {
+		b, _ := json.Marshal(c01RL(o.Weight))
+		q.Annotations[extension.AnnotationSharedWeight] = string(b)
+	}
 	q.Labels[extension.LabelAllowLentResource] = map[bool]string{true: "true", false: "false"}[o.Lent]
 	q.Labels[extension.LabelQuotaIsParent] = map[bool]string{true: "true", false: "false"}[o.IsParent]
 	return q
@@ -96,6 +102,7 @@ type c01World struct {
 	quotas map[string]*v1alpha1.ElasticQuota // "API server" objects (environment, not an oracle)
 	pods   map[string]*c01PodRec
 	mu     sync.Mutex
+	noObs  bool // C02/C03 runs: figures are not logged (they are C01's business)
 }
 
 func c01NewManager() *GroupQuotaManager {
@@ -269,6 +276,11 @@ func c01Event(o c01Op) vu.Ev {
 	switch o.Op {
 	case "quota":
 		ev["name"], ev["parent"], ev["isParent"], ev["lent"], ev["min"], ev["max"] = o.Name, o.Parent, o.IsParent, o.Lent, c01V(o.Min), c01V(o.Max)
+		if o.Weight != nil {
+			ev["weight"] = c01V(o.Weight)
+		}
+	case "refresh":
+		ev["name"] = o.Name
 	case "quotaDelete":
 		ev["name"] = o.Name
 	case "podAdd", "podUpdate":
@@ -291,8 +303,10 @@ func c01Event(o c01Op) vu.Ev {
 	return ev
 }
 
-func c01Run(rec *vu.Recorder, script []c01Op) {
-	w := &c01World{gqm: c01NewManager(), quotas: map[string]*v1alpha1.ElasticQuota{}, pods: map[string]*c01PodRec{}}
+func c01Run(rec *vu.Recorder, script []c01Op) { c01RunOpt(rec, script, false) }
+
+func c01RunOpt(rec *vu.Recorder, script []c01Op, noObs bool) {
+	w := &c01World{gqm: c01NewManager(), quotas: map[string]*v1alpha1.ElasticQuota{}, pods: map[string]*c01PodRec{}, noObs: noObs}
 	rec.Reset(nil)
 	for _, o := range script {
 		if o.Op == "reset" {
@@ -300,6 +314,8 @@ func c01Run(rec *vu.Recorder, script []c01Op) {
 		}
 		ev := c01Event(o)
 		switch o.Op {
+		case "refresh":
+			c02Refresh(w.gqm, o.Name, ev)
 		case "rebuild":
 			ev["obs"] = c01Obs(w.fresh(o.Variant))
 		case "par":
@@ -315,7 +331,9 @@ func c01Run(rec *vu.Recorder, script []c01Op) {
 			ev["obs"] = c01Obs(w.gqm)
 		default:
 			w.apply(o)
-			ev["obs"] = c01Obs(w.gqm)
+			if !w.noObs {
+				ev["obs"] = c01Obs(w.gqm)
+			}
 		}
 		rec.Emit(ev)
 	}
